@@ -221,7 +221,7 @@ def sample_events(trace, nscen=1, maxev=40):
 # system-driver pipeline shared by the AuthFlow family
 
 
-def sys_pipeline(prop, W, scenarios, design_checks, assumptions, level="model_checking", replay=None, extra_cov=None):
+def sys_pipeline(prop, W, scenarios, design_checks, assumptions, level="model_checking", replay=None, extra_cov=None, extra_verdicts=None):
     if replay:
         scenarios = [json.loads(l) for l in open(os.path.join(replay, "scenario.ndjson")) if l.strip()]
         log("[replay] %d scenario(s) from %s" % (len(scenarios), replay))
@@ -238,7 +238,13 @@ def sys_pipeline(prop, W, scenarios, design_checks, assumptions, level="model_ch
     if v["fired"].get("scenarios", 0) != len(scenarios):
         raise Infra("monitor saw %s scenarios, driver ran %d" % (v["fired"].get("scenarios"), len(scenarios)))
     samples = [{"scenario": scenarios[0], "recorded_events": sample_events(trace)}]
-    return judge(prop, W, [v], index, level=level, assumptions=assumptions, traces=len(scenarios), samples=samples, extra_cov=extra_cov, trace_file=trace)
+    vs, traces = [v], len(scenarios)
+    for ev in (extra_verdicts or []):
+        idx = ev.pop("index", {})
+        index.update(idx)
+        traces += len(idx)
+        vs.append(ev)
+    return judge(prop, W, vs, index, level=level, assumptions=assumptions, traces=traces, samples=samples, extra_cov=extra_cov, trace_file=trace)
 
 
 def sample(W, items, n):
@@ -627,6 +633,89 @@ ASSUME_SYS = [
 ]
 
 
+# ---------------------------------------------------------------------------------------------
+# key source (KeySource.tla / KeySourceTrace.tla): what "the filter's configured key set" is when it is fetched
+
+
+def key_source(W, n, given=None):
+    """Design check of KeySource.tla, its behaviours replayed into the real DefaultJWKSProvider (1 s refresh interval, real time),
+    the recorded lookups explained by KeySourceTrace.tla (silent refresh steps placed by TLC)."""
+    if given is None:
+        consts = 'CONSTANTS\n  MaxGen = 3\n  MaxOps = %d\n  Export = FALSE\n' % (8 if W.tier == "thorough" else 7)
+        props_ = "INVARIANTS OwnKeysOnly Served StaticIsStatic\nPROPERTIES NoRollback ErrOnlyUncached FreshAfterRound%s\nVIEW DView\nCHECK_DEADLOCK FALSE\n"
+        # safety as coded; availability (a lookup errs only while the source is down) holds only for the design that retries the first fetch
+        out, viol = W.tlc_exhaustive("KeySource", "SPECIFICATION Spec\n" + consts + "  RetryFirstFetch = FALSE\n" + props_ % "", "keysource-design", workers=8, timeout=1200)
+        if viol:
+            raise Infra("KeySource violates %s: the specification is wrong" % viol)
+        out, viol = W.tlc_exhaustive("KeySource", "SPECIFICATION Spec\n" + consts + "  RetryFirstFetch = TRUE\n" + props_ % " ErrOnlySourceDown", "keysource-design-retry", workers=8, timeout=1200)
+        if viol:
+            raise Infra("KeySource (retrying design) violates %s: the specification is wrong" % viol)
+        out, viol = W.tlc_exhaustive("KeySource", "SPECIFICATION Spec\n" + consts + "  RetryFirstFetch = FALSE\n" + props_ % " ErrOnlySourceDown", "keysource-design-as-coded", workers=8, timeout=1200, expect_violation=True)
+        if "ErrOnlySourceDown" not in (viol or []):
+            raise Infra("KeySource as coded is expected to violate ErrOnlySourceDown (failed first fetch sticks); TLC reports %s" % viol)
+        log("[design] as coded (only the first lookup fetches synchronously) the model violates ErrOnlySourceDown: an observation on availability, not a listed property")
+        consts = 'CONSTANTS\n  MaxGen = 3\n  MaxOps = %d\n  Export = TRUE\n  RetryFirstFetch = FALSE\n' % (6 if W.tier == "thorough" else 5)
+        out, viol = W.tlc_exhaustive("KeySource", "SPECIFICATION Spec\n" + consts + "INVARIANT ExportScn\nCHECK_DEADLOCK FALSE\n", "keysource-export", workers=8, timeout=1200)
+        allb = W.scenarios_from(out)
+        # behaviours worth the real seconds they cost: a lookup after something happened at the source, at most two waits
+        def worth(b):
+            st = b["steps"]
+            return sum(1 for x in st if x["op"] == "wait") <= 2 and any(x["op"] in ("rotate", "mode") for x in st) and st[-1]["op"] == "get"
+        cand = [b for b in allb if worth(b)]
+        # two thirds of the replayed behaviours contain a wait (a refresh round), which costs real seconds
+        def after_wait(b):
+            ops = [x["op"] for x in b["steps"]]
+            return "wait" in ops and any(o in ("rotate", "mode") for o in ops[:len(ops) - 1 - ops[::-1].index("wait")])
+        waits = [b for b in cand if after_wait(b)]
+        rest = [b for b in cand if not after_wait(b)]
+        scen = sample(W, waits, n - n // 3) + sample(W, rest, n // 3)
+        log("[gen] KeySource: %d behaviours enumerated by TLC, %d with a source event before a final lookup, %d replayed" % (len(allb), len(cand), len(scen)))
+        for i, b in enumerate(scen):
+            b["id"] = "keysource/%d" % i
+    else:
+        scen = given
+    trace = W.drive("TestJwks", scen, "jwks", timeout=1500)
+    outf = W.path("jwks.verdict.json")
+    cfg = ('INIT TInitL\nNEXT TNext\nCONSTANTS\n  MaxGen = 99\n  MaxOps = 0\n  Export = FALSE\n  RetryFirstFetch = FALSE\n  TraceFile = "%s"\n  OutFile = "%s"\n'
+           'CONSTRAINT Mark\nINVARIANTS TInv Done\nPOSTCONDITION Post\nCHECK_DEADLOCK FALSE\n' % (trace, outf))
+    out, gen, dist, viol, d = W.tlc("KeySourceTrace", cfg, "jwks-trace", workers=1, timeout=1800, jvm=["-Dtlc2.tool.queue.IStateQueue=StateDeque"])
+    if viol:
+        raise Infra("KeySourceTrace: %s violated on a state the trace search reached -- the specification is wrong:\n%s" % (viol, out[-1500:]))
+    if not os.path.exists(outf):
+        raise Infra("KeySourceTrace produced no verdict:\n" + out[-2000:])
+    r = json.load(open(outf))
+    W.tlc_states += dist
+    W.tlc_transitions += gen
+    v = {"viol": [], "fired": {"keySourceBehaviours": len(scen)}, "drift": [], "index": {s_["id"]: s_ for s_ in scen}}
+    lines = [json.loads(x) for x in open(trace)]
+    def scen_of(pos):
+        sid = "?"
+        for e in lines[:pos]:
+            if e.get("ev") == "jreset":
+                sid = e["scenario"]
+        return sid
+    for pos in sorted(r.get("odd") or []):
+        v["drift"].append({"sc": scen_of(pos), "n": pos, "expect": "keys", "got": "lookup erred although the source answers or keys were cached"})
+    if r["consumed"] < r["len"]:
+        pos = r["consumed"] + 1                      # the first line no placement of refreshes explains
+        e = lines[pos - 1]
+        sid = scen_of(pos)
+        if e.get("ev") == "get" and e.get("res") == "err":
+            v["drift"].append({"sc": sid, "n": pos, "expect": "keys", "got": "lookup erred although keys must have been cached"})
+        elif e.get("ev") == "get":
+            uri_of = {"f1": "u1", "f3": "u1", "f2": "u2", "fs": "static"}
+            cause = ("key-set-not-from-any-source" if e.get("uri") == "?" else
+                     "key-set-of-another-source" if e.get("uri") != uri_of.get(e.get("f")) else "key-set-stale-or-never-served")
+            v["viol"].append({"p": "C02", "m": "KeySource", "cause": cause, "sc": sid, "n": pos, "at": pos, "event": e})
+        else:
+            raise Infra("KeySourceTrace stuck at line %d on a non-lookup event %s" % (pos, e))
+        log("[trace] jwks: the search stopped at line %d of %d (%s); later behaviours were not judged" % (pos, r["len"], e))
+    log("[trace] jwks: %d behaviours (%d events) of the real key provider searched for an explanation by KeySourceTrace (%d states); %s" % (
+        len(scen), r["len"], dist, "all explained" if r["consumed"] >= r["len"] else "stuck at line %d" % (r["consumed"] + 1)))
+    return v
+
+
+
 def c02(W, replay=None):
     W.build()
     scen = []
@@ -643,7 +732,18 @@ def c02(W, replay=None):
         scen += same_client_family(W) + after_deny_family(W) + dup_chain_family(W)
         if W.tier == "thorough":
             scen += random_histories(W, 800, faults=True)
-    return sys_pipeline("C02", W, scen, None, ASSUME_SYS + ["the strength of jws.Verify itself is trusted; classes are the enumerated grammar and its rendered variants"], replay=replay)
+    extra = []
+    if replay and scen == [] and os.path.exists(os.path.join(replay, "scenario.ndjson")):
+        rs = [json.loads(l) for l in open(os.path.join(replay, "scenario.ndjson")) if l.strip()]
+        if rs and str(rs[0].get("id", "")).startswith("keysource"):
+            kv = key_source(W, 0, given=rs)
+            idx = kv.pop("index")
+            return judge("C02", W, [kv], idx, traces=len(rs), samples=[{"scenario": rs[0]}])
+    if not replay:
+        extra.append(key_source(W, 300 if W.tier == "thorough" else 36))
+    return sys_pipeline("C02", W, scen, None, ASSUME_SYS + ["the strength of jws.Verify itself is trusted; classes are the enumerated grammar and its rendered variants",
+                                                            "key source: fetched key sets are identified by their key ids; a wait is longer than interval + refresh window (1 s + 1 s) and at most 8 s"],
+                        replay=replay, extra_verdicts=extra)
 
 
 def c03(W, replay=None):
